@@ -36,6 +36,7 @@ static struct vtab *cur_tab = &parent_tab;
 static int in_child;
 static int npipes, pipe_calls, fork_calls, cfg_pipefail, cfg_forkfail;
 extern int mt_fork_fail_next __attribute__((weak));
+extern int mt_spawn_fate_next __attribute__((weak));
 
 static const char *kind_name(int k)
 {
@@ -383,6 +384,10 @@ static int q_action(char *op, int guard, char *a1, char *a2, char *rest)
 		int fd, r;
 		i = mt_objnum(a1, 'q');
 		if (Q[i].exists != 1 || Q[i].owner != mt_me() || Q[i].open) return 1;
+		if (a2 != NULL && !strcmp(a2, "instant") && &mt_spawn_fate_next != NULL) {
+			/* `psubmit q0 instant [killed]`: the child is done before fork() has returned to the parent */
+			mt_spawn_fate_next = (rest != NULL && strstr(rest, "killed") != NULL) ? SIGKILL : 0;
+		}
 		mt_log("API psubmit q%d type=%s t=%lld\n", i, Q[i].type, mt_vclock);
 		log_tab("VFDS", &parent_tab);
 		submitting_q = i;
